@@ -425,6 +425,9 @@ func TestVerifC05(t *testing.T) {
 		if replayIdx < 0 && !cfg.Mine(i) {
 			continue
 		}
+		if replayIdx < 0 && i%256 == 0 && (rep.Enough() || rep.OverBudget()) {
+			break
+		}
 		r := kit.NewRand(cfg.Seed, "C05", i)
 		c := c05Gen(r, i)
 		rep.Eval(1)
